@@ -580,6 +580,23 @@ impl TableSubj {
     }
 }
 
+/// Is it legitimate for the construction of the entry described by `op` to be refused?
+fn ctor_refusal_expected(op: &Op) -> bool {
+    let bad = |d: u64, f: u64| (d as u8) >= 32 || (f as u8) >= 8;
+    match op.k {
+        K::SrGenInit => op.arg(1) % 2 == 1 && bad(op.arg(4), op.arg(5)),
+        K::RiIommu => op.arg(1) & 2 != 0 && bad(op.arg(5), op.arg(6)),
+        K::ViPciRange => bad(op.arg(2), op.arg(3)) || bad(op.arg(6), op.arg(7)),
+        K::ViPciIommu => bad(op.arg(2), op.arg(3)),
+        K::CeRdpas => bad(op.arg(2), op.arg(3)),
+        K::HeAerRoot | K::HeAerDev | K::HeAerBridge => op.arg(0) % 2 == 1 && bad(op.arg(3), op.arg(4)),
+        // more private resources / bitmaps than the entry's own fields can describe (C18's domain)
+        K::PpProc => op.s.iter().filter(|o| o.k == K::PnAddCache).count() > 58,
+        K::CeCxims => op.s.iter().filter(|o| o.k == K::CxXormap).count() > 255,
+        _ => false,
+    }
+}
+
 fn standalone_bytes(be: &BuiltEntry) -> Result<Vec<u8>, Caught> {
     match &be.b {
         // XSDT entries are 64-bit physical addresses; MCFG allocation structures are
@@ -629,9 +646,13 @@ impl Subject for TableSubj {
                     cx.stop = true;
                     return Applied { refused: true, refusal_expected: true };
                 }
-                // a constructor refused its arguments (PCI device >= 32 / function >= 8): table untouched
-                cx.probe("fault.refusal.constructor");
-                return Applied { refused: true, refusal_expected: true };
+                // a constructor or builder refused its arguments; that is expected only for arguments
+                // outside its domain (PCI device >= 32 / function >= 8, more sub-elements than fit)
+                if ctor_refusal_expected(op) {
+                    cx.probe("fault.refusal.constructor");
+                    return Applied { refused: true, refusal_expected: true };
+                }
+                return Applied { refused: true, refusal_expected: false };
             }
         };
         let bytes = match standalone_bytes(&be) {
@@ -791,6 +812,10 @@ impl Subject for TableSubj {
         }
         // ---------------- C05: handles and reference fields ----------------
         if cx.on(P05) && matches!(self.subject, K::Pptt | K::Rhct | K::Rimt | K::Viot) {
+            // a node whose sub-element count does not fit its own length field (only generated in the
+            // oversize mode) has a wrapped length byte: framing is then C18's matter and the walk is
+            // not consulted; handles and references are still compared with the true offsets
+            let walked = if self.ents.iter().any(|e| e.kind == K::PpProc && e.subn > 58) { None } else { walked };
             let mut offs = Vec::with_capacity(self.ents.len());
             let mut p = sp.first as u64;
             for e in &self.ents {
@@ -1428,6 +1453,9 @@ impl Subject for SdtSubj {
     fn serialize(&self, sink: &mut dyn AmlSink) {
         self.s.to_aml_bytes(sink)
     }
+    fn sizes(&self) -> (u64, u64) {
+        (self.m.len() as u64, 0)
+    }
     fn length_field(&self) -> Option<usize> {
         // caller-writable: only asserted while no caller write has touched it since the last append
         if self.length_is_tables {
@@ -1847,14 +1875,22 @@ pub fn execute(root: &Op, props: u32, stats_on: bool) -> RunResult {
         let carry = carry_class(len0, len1).max(carry_class(cnt0, cnt1));
         if carry >= 1 {
             cx.probe("carry.byte1");
+            if len0 >> 8 != len1 >> 8 {
+                cx.cover("carry.subjects_length_crossing_256", root.k as u64);
+            }
             if cnt0 >> 8 != cnt1 >> 8 {
                 cx.probe("carry.count_255_to_256");
+                cx.cover("carry.subjects_count_255_to_256", root.k as u64);
             }
         }
         if carry >= 2 {
             cx.probe("carry.byte2");
+            if len0 >> 16 != len1 >> 16 {
+                cx.cover("carry.subjects_length_crossing_65536", root.k as u64);
+            }
             if cnt0 >> 16 != cnt1 >> 16 {
                 cx.probe("carry.count_65535_to_65536");
+                cx.cover("carry.subjects_count_65535_to_65536", root.k as u64);
             }
         }
         if carry >= 3 {
